@@ -208,9 +208,15 @@ def r2(ctx, facts, cfg):
         raise AnalysisBroken("BacktraceStorage::process: callback invocation not found")
     c0 = cb[0]
     idxv = None
+    # the element handed to the callback: `_stored_events[index]` written in the arguments, or a local reference bound to it
+    srcs = [c0["args"][1]]
     for x in walk(c0["args"][1]):
-        if is_call(x, r"std::vector<.*>::operator\[\]$") and is_this_field(call_obj(x), "_stored_events"):
-            idxv = var_ref(strip(x["args"][1], casts=True))
+        if x["k"] == "DeclRefExpr" and x.get("dk") == "Var" and isnode(inits.get(x.get("did"))) and not p.assignments_to_var(x["did"]):
+            srcs.append(inits[x["did"]])
+    for src in srcs:
+        for x in walk(src):
+            if is_call(x, r"std::vector<.*>::operator\[\]$") and is_this_field(call_obj(x), "_stored_events"):
+                idxv = var_ref(strip(x["args"][1], casts=True))
     start_ok = idxv is not None and idxv in inits and is_this_field(strip(inits[idxv], casts=True), "_index")
     loops = [a for a in p.ancestors(c0) if a["k"] in ("ForStmt", "WhileStmt")]
     count_ok = False
